@@ -43,6 +43,12 @@ static std::string showVec(RealVector const& v){
 	for(std::size_t i = 0; i != v.size(); ++i){ if(i) s += ","; s += vh::exactDouble(v(i)); }
 	return s + "]";
 }
+static std::string hexd(double d){
+	std::uint64_t b; std::memcpy(&b, &d, 8); char buf[24]; std::snprintf(buf, sizeof buf, "x%016llx", (unsigned long long)b); return buf;
+}
+static std::string hexVec(RealVector const& v){
+	std::string s; for(std::size_t i = 0; i != v.size(); ++i){ s += ","; s += hexd(v(i)); } return s;
+}
 static bool sameBits(double a, double b){ return std::memcmp(&a, &b, 8) == 0 || (a == 0 && b == 0); }
 static bool sameVec(RealVector const& a, RealVector const& b){
 	if(a.size() != b.size()) return false;
@@ -116,10 +122,11 @@ struct Config{
 // probes exposing protected state of the line-search optimizers
 template<class B> struct LSProbe: public B{
 	std::string base() const{
+		// flat machine-readable state: dim, point, value, g, d, lastPoint, lastDerivative, lastValue, initialStepLength, model...
 		std::ostringstream os;
-		os << " g=" << showVec(this->m_derivative) << " d=" << showVec(this->m_searchDirection)
-		   << " lp=" << showVec(this->m_lastPoint) << " lg=" << showVec(this->m_lastDerivative)
-		   << " lv=" << vh::exactDouble(this->m_lastValue) << " isl=" << vh::exactDouble(this->m_initialStepLength);
+		os << " st=" << this->m_dimension << hexVec(this->m_best.point) << "," << hexd(this->m_best.value) << hexVec(this->m_derivative) << hexVec(this->m_searchDirection)
+		   << hexVec(this->m_lastPoint) << hexVec(this->m_lastDerivative)
+		   << "," << hexd(this->m_lastValue) << "," << hexd(this->m_initialStepLength);
 		return os.str();
 	}
 };
@@ -153,28 +160,26 @@ template<class T> struct WrapT: public Wrap{
 struct WrapBFGS: public WrapT<BFGSProbe>{
 	explicit WrapBFGS(bool poison): WrapT<BFGSProbe>(poison){}
 	std::string extra(bool){
-		std::ostringstream os; os << p->base() << " H=[";
+		std::ostringstream os; os << p->base();
 		RealMatrix const& H = p->hessian();
 		for(std::size_t i = 0; i != H.size1(); ++i){
-			if(i) os << ";";
 			RealVector r = row(H, i);
-			os << showVec(r);
+			os << hexVec(r);
 		}
-		os << "]"; return os.str();
+		return os.str();
 	}
 };
 struct WrapCG: public WrapT<CGProbe>{
 	explicit WrapCG(bool poison): WrapT<CGProbe>(poison){}
-	std::string extra(bool){ std::ostringstream os; os << p->base() << " cnt=" << p->count(); return os.str(); }
+	std::string extra(bool){ std::ostringstream os; os << p->base() << "," << hexd((double)p->count()); return os.str(); }
 };
 struct WrapLBFGS: public WrapT<LSProbe<LBFGS<RealVector> > >{
 	explicit WrapLBFGS(bool poison): WrapT<LSProbe<LBFGS<RealVector> > >(poison){}
 	std::string extra(bool){
-		std::ostringstream os; os << p->base() << " bd=" << vh::exactDouble(p->m_bdiag) << " S=[";
-		for(std::size_t i = 0; i != p->m_steps.size(); ++i){ if(i) os << ";"; os << showVec(p->m_steps[i]); }
-		os << "] Y=[";
-		for(std::size_t i = 0; i != p->m_gradientDifferences.size(); ++i){ if(i) os << ";"; os << showVec(p->m_gradientDifferences[i]); }
-		os << "]"; return os.str();
+		std::ostringstream os; os << p->base() << "," << hexd(p->m_bdiag) << "," << hexd((double)p->m_steps.size());
+		for(std::size_t i = 0; i != p->m_steps.size(); ++i) os << hexVec(p->m_steps[i]);
+		for(std::size_t i = 0; i != p->m_gradientDifferences.size(); ++i) os << hexVec(p->m_gradientDifferences[i]);
+		return os.str();
 	}
 };
 
@@ -283,6 +288,17 @@ int main(){
 					out << " !oracle increased";
 				if(!sameVec(pt, twin->o().solution().point) || !sameBits(val, twin->o().solution().value))
 					out << " !oracle resume-diverged";
+			}else if(t[0] == "converged"){
+				// numerical convergence oracle (strictly convex quadratics): ||grad f(best)||_inf <= tol * (1 + ||b||_inf)
+				if(!cur) throw std::runtime_error("bad-op");
+				double tol = bits2d(t.at(1));
+				RealVector g; f->both(cur->o().solution().point, &g);
+				double gn = 0, bn = 0;
+				for(std::size_t i = 0; i != g.size(); ++i) gn = std::max(gn, std::fabs(g(i)));
+				for(std::size_t i = 0; i != f->b.size(); ++i) bn = std::max(bn, std::fabs(f->b[i]));
+				bool okc = gn <= tol * (1 + bn);
+				out << "conv=" << (okc ? 1 : 0);
+				if(!okc) out << " !oracle not-converged " << gn;
 			}else if(t[0] == "save"){
 				if(!cur) throw std::runtime_error("bad-op");
 				bool text = t.at(1) == "text", strict = t.at(2) == "strict";
